@@ -151,6 +151,66 @@ func c04R2(e *Engine) {
 			}
 		}
 	}
+	// record form: the loop state lives in a local record (page.last) written by a step/emit helper
+	if u, ok := strip(itemArg).(*ssa.UnOp); ok && u.Op == token.MUL && itemArg != nil {
+		if fa, isFA := u.X.(*ssa.FieldAddr); isFA {
+			if nt := namedOf(fa.X.Type()); nt != nil && e.localRecord(nt) {
+				why = "the 'last' field of the loop state is never set to the item of the current iteration"
+				conditional := false
+				e.walkLocal("core", sd, 3, func(in ssa.Instruction, ctx []callCtx) {
+					st, isSt := in.(*ssa.Store)
+					if !isSt {
+						return
+					}
+					fa2, isFA2 := st.Addr.(*ssa.FieldAddr)
+					if !isFA2 || fa2.Field != fa.Field {
+						return
+					}
+					if nt2 := namedOf(fa2.X.Type()); nt2 == nil || nt2.Origin() != nt.Origin() {
+						return
+					}
+					v, _ := resolveParam(st.Val, ctx)
+					ex, isEx := strip(v).(*ssa.Extract)
+					if !isEx || ex.Index != 0 {
+						return // the initial value
+					}
+					call, isCall := ex.Tuple.(*ssa.Call)
+					if !isCall {
+						return
+					}
+					var verdict ssa.Value
+					for _, x := range extractOf(call, 2) {
+						verdict = x
+					}
+					// neither the store nor any call on the way to it may depend on the match verdict
+					blocks := []*ssa.BasicBlock{in.Block()}
+					ctxs := [][]callCtx{ctx}
+					for i := len(ctx) - 1; i >= 0; i-- {
+						blocks = append(blocks, ctx[i].call.Block())
+						ctxs = append(ctxs, ctx[:i])
+					}
+					cond := false
+					for i, blk := range blocks {
+						for _, cd := range condsAt(blk) {
+							cv, _ := resolveParam(normCond(cd).V, ctxs[i])
+							if verdict != nil && normCond(Cond{cv, true}).V == verdict {
+								cond = true
+							}
+						}
+					}
+					if cond {
+						conditional = true
+					} else {
+						okItem = true
+					}
+				})
+				if conditional {
+					okItem = false
+					why = "the 'last' item is only updated when the item matched: after a page that ends on filtered-out items the returned key points before them and they are evaluated again (or the read never advances)"
+				}
+			}
+		}
+	}
 	if okItem {
 		e.pass("R2", construct, e.ipos(lk), "the key is built from the item of the last evaluated position (assigned on every non-skipped iteration, matched or not)")
 	} else {
